@@ -41,7 +41,7 @@ ASSUMPTIONS = ['theorems: untilted fields (the tilted-chip cases are tied and de
                'comparison tolerance 1e-9*(1+max|expected|)']
 RULE = ('random supports <= 7x7 (quick) / 10x10 (thorough), random labelling into 1..4 segments (bounding boxes overlap), chains of '
         '1..3 pupils with scalar/array amplitude and OPD, propagate_dft with shape/prop_shape/oversample 1..3; each case run '
-        'segmented and monolithic (optionally with a tilted incoming wavefront, lentil.Tilt planes before/after the apertures, and ONE '
+        'segmented and monolithic (optionally with a tilted incoming wavefront, lentil.Tilt planes before/after the apertures (bare, or carrying the aperture mask themselves: cube vs union), and ONE '
         'incoming Wavefront object re-used for both descriptions); segmented pupils with a different tilt per segment and prop_shape < shape (chips disjoint / '
         'disjoint / bridging in every order) compared with the sum of the single-segment propagations; whole-array vs cropped '
         'sub-array(s)-with-offset wavefronts; relays pupil -> image -> (Image-plane stop) -> re-imaged pupil with field, intensity '
@@ -189,7 +189,10 @@ def p7_case(c, seg):
     for pl in c['planes']:
         if 'shift' in pl:        # a lentil.Tilt plane in the chain
             a, b = shift_tilt(c, pl['shift'])
-            planes.append(P7.tilt_plane(a, b))
+            tp = P7.tilt_plane(a, b)
+            if 'labels' in pl:
+                tp['mask'] = {'c': layers_of(pl)} if seg else {'a': union_of(pl)}
+            planes.append(tp)
         else:
             planes.append(p7_plane(pl, c, seg))
     return {'op': 'chain', 'L': c['Lo'], 'lam': c['wl'], 'wpix': None, 'wfocal': None,
@@ -298,7 +301,19 @@ def rnd_seg(rng, maxn, maxs):
         if rng.random() < 0.7:
             c['wshift'] = dyadic_shift()
         for _ in range(rng.choice([1, 1, 2])):
-            planes.insert(rng.randint(0, len(planes)), {'shift': dyadic_shift()})
+            tp = {'shift': dyadic_shift()}
+            prod = 1
+            for pl in planes:
+                prod *= pl.get('k', 1)
+            small = [pl for pl in planes if 'shift' not in pl and pl['k'] <= 4 and prod * pl['k'] <= 48]
+            if small and rng.random() < 0.5:
+                # the Tilt plane carries an aperture mask itself (Plane kwargs): the cube of segment masks in the segmented
+                # description, their union in the monolithic one - every segment must be tilted
+                # (a cube of at most 4 layers and at most 48 for the product of all cube sizes: the number of fields of the segmented chain is that product,
+                # and Wavefront.intensity -> field.reduce recurses once per merge - see the report)
+                src = rng.choice(small)
+                tp['labels'], tp['k'] = src['labels'], src['k']
+            planes.insert(rng.randint(0, len(planes)), tp)
     # the two descriptions start from ONE Wavefront object (re-used afterwards) or from two fresh ones
     c['reuse'] = rng.choice([None, None, 'seg-first', 'mono-first'])
     return c
@@ -973,7 +988,7 @@ def classify(c):
         return 'tseg/' + chip_kind(c)
     if c['op'] == 'rseg':
         return f'rseg/{c["how"]}/{c["scale"]}/' + '-'.join(str(pl['k']) for pl in c['planes'])
-    return ('seg/' + '-'.join(('T' if 'shift' in pl else str(pl['k'])) for pl in c['planes']) + ('/wt' if c.get('wshift') else '')
+    return ('seg/' + '-'.join((('Tm' if 'labels' in pl else 'T') if 'shift' in pl else str(pl['k'])) for pl in c['planes']) + ('/wt' if c.get('wshift') else '')
             + ('/' + real_planes(c)[0]['aform'] if real_planes(c)[0].get('aform') else '') + ('/scaled' if real_planes(c)[0].get('ascale') else '')
             + ('/reuse' if c.get('reuse') else '') + ('/opd' if c['Lo'] > 1 else '')
             + ('/1px' if single_sample(c) else ''))
